@@ -48,6 +48,14 @@ def space(tier, seed):
         rng.shuffle(pathc)
         allc = allc[:1200]
         pathc = pathc[:240]
+    else:
+        # the product without the symbolic-link attribute and without DIR/recipe is run completely; of those two additions a sample
+        rng = C.case_rng(seed, 0, "c09-thorough")
+        sym = [c for c in allc if c["attr"] == "relsym"]
+        rng.shuffle(sym)
+        rng.shuffle(pathc)
+        allc = [c for c in allc if c["attr"] != "relsym"] + sym[:5000]
+        pathc = pathc[:5000]
     return allc + pathc, total
 
 
@@ -286,7 +294,7 @@ def run(report):
     report.coverage.update({
         "evaluations": len(cfgs),
         "distinct_nontrivial": len(distinct),
-        "rule": "product of {file containing the recipe: root, import of root, submodule, import of the submodule, module declared in an imported file, module nested in the submodule} x `set working-directory` in root and submodule {none, relative, absolute} x {no flags, --justfile, --justfile + --working-directory, the same two with relative paths in three spellings} x invocation directory {justfile dir, nested subdir, module dir, unrelated dir} x attribute {none, relative, absolute} x [no-cd] x {linewise, shebang, [script]} x {direct, via dependency, via an alias of the root, via an alias declared inside the submodule}, plus the recipe named as DIR/recipe with seven (invocation directory, DIR) pairs whose DIR has no justfile of its own; %s; distinct = distinct (configuration, observed directories)" % ("complete" if tier == "thorough" else "random sample of the space (size in stats)"),
+        "rule": "product of {file containing the recipe: root, import of root, submodule, import of the submodule, module declared in an imported file, module nested in the submodule} x `set working-directory` in root and submodule {none, relative, absolute} x {no flags, --justfile, --justfile + --working-directory, the same two with relative paths in three spellings} x invocation directory {justfile dir, nested subdir, module dir, unrelated dir} x attribute {none, relative, absolute} x [no-cd] x {linewise, shebang, [script]} x {direct, via dependency, via an alias of the root, via an alias declared inside the submodule}, plus the recipe named as DIR/recipe with seven (invocation directory, DIR) pairs whose DIR has no justfile of its own; %s; distinct = distinct (configuration, observed directories)" % ("complete, except for 5000-configuration samples of the symbolic-link attribute and of the DIR/recipe forms" if tier == "thorough" else "random sample of the space (size in stats)"),
         "samples": samples,
         "exhaustive": tier == "thorough",
         "traces_validated_against_impl": len(cfgs),
